@@ -450,7 +450,7 @@ macro_rules! c11_step {
                 k += 1;
             }
             assert!(!vgm::vg().reg_overflow && !vgm::vg().consumed_empty && !vgm::vg().double_close);
-            kani::cover!(rr[q].started && rr[q].enabled && rr[q].kick.is_some(), "witness: the step ends in an active ring with a kick descriptor");
+            kani::cover!(rr[1 - q].started && rr[1 - q].kick.is_some() && (rr[q].started || op == 5), "witness: the step runs from a pre-state with started rings");
         } }
     };
 }
@@ -476,6 +476,118 @@ c11_step!(c11_step_rw_set_kick_new, mk_handler_r, 1);
 c11_step!(c11_step_rw_kick_and_worker, mk_handler_r, 7);
 // @harness props=C11 tier=thorough reach=off timeout=1200 mem=24 bound="inductive step get_vring_base over RwLock rings" stubs="Epoll::ctl (ghost interest lists; EEXIST/ENOENT as Ok), EventConsumer::consume, EventNotifier::notify, close/OwnedFd::drop"
 c11_step!(c11_step_rw_get_vring_base, mk_handler_r, 5);
+
+// ---------------------------------------------------------------------------------------- C12
+// Kani has no threads: a schedule of the worker thread and the control (daemon) thread is made explicit by
+// SEQUENTIALISATION at the points where the two threads can be suspended relative to each other:
+//   W1 worker: epoll_wait has returned an event for the ring's kick fd (stale snapshot of the interest list)
+//   W2 worker: read_kick done (ring lock released), backend.handle_event not yet entered
+//   C  control: one disabling / stopping message runs to completion ("reply sent")
+// Schedules covered here:  W1 . C . worker continues   (c12_stale_*)
+//                          W2 . C . worker continues   (c12_window_*, the control message runs nested at the
+//                                                      entry of the recording backend's handle_event)
+// Schedules NOT expressible: the control thread suspended in the middle of a message while the worker runs
+// (argued equivalent to one of the two orders because both sides serialise on the ring lock), >2 threads.
+static mut NESTED: (u8, *mut VhostUserHandler<VB>, u64) = (0, std::ptr::null_mut(), 0x6331_325f_6e65_7374);
+
+/// called by the recording backend at the entry of handle_event (schedule point W2)
+pub(crate) fn nested_control() {
+    // SAFETY: single-threaded harness; the handler outlives the call; the worker holds no lock at W2
+    unsafe {
+        if NESTED.0 != 0 && !NESTED.1.is_null() {
+            let op = NESTED.0;
+            NESTED.0 = 0;
+            c12_control(&mut *NESTED.1, op);
+            NESTED.2 |= 1 << 63; // "reply sent" marker
+        }
+    }
+}
+fn c12_control(h: &mut VhostUserHandler<VB>, op: u8) {
+    match op {
+        1 => { let r = h.set_vring_enable(0, false); assert!(r.is_ok()); std::mem::forget(r); }
+        2 => { let r = h.get_vring_base(0); assert!(r.is_ok()); std::mem::forget(r); }
+        _ => { let r = h.reset_device(); assert!(r.is_ok()); std::mem::forget(r); }
+    }
+}
+
+/// W1 . C . worker continues; then the ring is activated again and the worker takes another turn
+fn c12_stale(op: u8) {
+    let (mut h, _ids) = mk_handler_m(2, &[0b11]);
+    let epfd = ev::EPFD0;
+    h.acked_features = PF;
+    let fd = vgm::FD0;
+    let r = h.set_vring_kick(0, Some(file(fd)));
+    std::mem::forget(r);
+    let r = h.set_vring_enable(0, true);
+    std::mem::forget(r);
+    // guest kicks; the worker's epoll_wait returns the event ...
+    vgm::kick(fd);
+    let ev_data = vgm::registered(epfd, fd);
+    assert!(ev_data == Some(0));
+    // ... and before the worker looks at it the control thread processes a disabling / stopping message
+    c12_control(&mut h, op);
+    let calls_at_reply = vgm::vg().he_calls;
+    // worker continues with the (now stale) event
+    let res = ev::worker_handle_event(&h.handlers[0], 0);
+    assert!(res == Some(false));
+    assert!(vgm::vg().he_calls == calls_at_reply, "C12: event handler entered for a ring after the reply to the message that disabled / stopped it");
+    if op != 2 {
+        // the ring still owns its kick descriptor: the kick must not be consumed without being processed
+        assert!(vgm::pending(fd), "C12: a wake-up was consumed without being processed (kick lost while the ring is disabled)");
+        // re-enable (after RESET_DEVICE the features have to be negotiated again first): the pending kick
+        // must now reach the handler
+        if op == 3 {
+            vgm::vg().features = PF;
+            let r = h.set_features(PF);
+            assert!(r.is_ok());
+            std::mem::forget(r);
+        }
+        let r = h.set_vring_enable(0, true);
+        assert!(r.is_ok());
+        std::mem::forget(r);
+        assert!(vgm::registered(epfd, fd) == Some(0), "C12: re-enabled ring is watched again");
+        let res = ev::worker_handle_event(&h.handlers[0], 0);
+        assert!(res == Some(false));
+        assert!(vgm::vg().he_calls == calls_at_reply + 1 && vgm::vg().he_ring_active, "C12: the retained kick is processed once the ring is enabled again");
+    }
+    kani::cover!(vgm::vg().he_calls == calls_at_reply + if op != 2 { 1 } else { 0 }, "witness: the schedule runs to its end");
+}
+/// W2 . C . worker continues: the worker has read the kick of an active ring (lock released) and is about to
+/// enter the backend's event handler when a disabling / stopping message is processed completely
+fn c12_window(op: u8) {
+    let (mut h, _ids) = mk_handler_m(2, &[0b11]);
+    h.acked_features = PF;
+    let fd = vgm::FD0;
+    let r = h.set_vring_kick(0, Some(file(fd)));
+    std::mem::forget(r);
+    let r = h.set_vring_enable(0, true);
+    std::mem::forget(r);
+    vgm::kick(fd);
+    // SAFETY: single-threaded harness
+    unsafe {
+        NESTED.0 = op;
+        NESTED.1 = &mut *h as *mut VhostUserHandler<VB>;
+    }
+    let res = ev::worker_handle_event(&h.handlers[0], 0);
+    assert!(res == Some(false));
+    let g = vgm::vg();
+    kani::cover!(g.he_calls == 1);
+    // the handler was entered after the nested message completed: the ring must be active at that time
+    assert!(g.he_calls == 0 || g.he_ring_active, "C12: event handler entered for a ring after the reply to the message that disabled / stopped it (window between reading the kick and dispatching)");
+}
+// @harness props=C12 tier=quick reach=off timeout=900 mem=24 bound="schedule W2.C.W for C = SET_VRING_ENABLE(0): control message between the worker's read_kick and the backend call" stubs="Epoll::ctl (ghost interest lists), EventConsumer::consume, EventNotifier::notify, close/OwnedFd::drop"
+h_proof! { #[kani::unwind(4)] fn c12_window_disable() { c12_window(1) } }
+// @harness props=C12 tier=quick reach=off timeout=900 mem=24 bound="schedule W2.C.W for C = GET_VRING_BASE" stubs="Epoll::ctl (ghost interest lists), EventConsumer::consume, EventNotifier::notify, close/OwnedFd::drop"
+h_proof! { #[kani::unwind(4)] fn c12_window_get_vring_base() { c12_window(2) } }
+// @harness props=C12 tier=thorough reach=off timeout=900 mem=24 bound="schedule W2.C.W for C = RESET_DEVICE" stubs="Epoll::ctl (ghost interest lists), EventConsumer::consume, EventNotifier::notify, close/OwnedFd::drop"
+h_proof! { #[kani::unwind(4)] fn c12_window_reset() { c12_window(3) } }
+
+// @harness props=C12 tier=quick reach=off timeout=900 mem=24 bound="schedule W1.C.W for C = SET_VRING_ENABLE(0): worker holds a stale epoll event while the ring is disabled, then re-enabled (2 Mutex rings, one worker)" stubs="Epoll::ctl (ghost interest lists), EventConsumer::consume, EventNotifier::notify, close/OwnedFd::drop"
+h_proof! { #[kani::unwind(4)] fn c12_stale_disable() { c12_stale(1) } }
+// @harness props=C12 tier=quick reach=off timeout=900 mem=24 bound="schedule W1.C.W for C = GET_VRING_BASE: worker holds a stale epoll event while the ring is stopped" stubs="Epoll::ctl (ghost interest lists), EventConsumer::consume, EventNotifier::notify, close/OwnedFd::drop"
+h_proof! { #[kani::unwind(4)] fn c12_stale_get_vring_base() { c12_stale(2) } }
+// @harness props=C12 tier=quick reach=off timeout=900 mem=24 bound="schedule W1.C.W for C = RESET_DEVICE: worker holds a stale epoll event while all rings are disabled, then re-enabled" stubs="Epoll::ctl (ghost interest lists), EventConsumer::consume, EventNotifier::notify, close/OwnedFd::drop"
+h_proof! { #[kani::unwind(4)] fn c12_stale_reset() { c12_stale(3) } }
 
 // ---------------------------------------------------------------------------------------- C13
 fn va_to_gpa(n: usize) {
